@@ -112,9 +112,9 @@ Arguments RCrash {A} c.
 
 Definition is_crash {A} (r : res A) : bool := match r with RCrash _ => true | _ => false end.
 
-Record variant := { fix22 : bool; fix21 : bool; fix25 : bool }.
-Definition orig : variant := {| fix22 := false; fix21 := false; fix25 := false |}.
-Definition repaired : variant := {| fix22 := true; fix21 := true; fix25 := true |}.
+Record variant := { fix22 : bool; fix21 : bool; fix26 : bool }.
+Definition orig : variant := {| fix22 := false; fix21 := false; fix26 := false |}.
+Definition repaired : variant := {| fix22 := true; fix21 := true; fix26 := true |}.
 (** The tree the correspondence check runs against. *)
 Definition cur : variant := repaired.
 
@@ -623,7 +623,7 @@ Definition flatten (v : variant) (tbl : ftable) (sel : list titem) : res fstate 
                  (f_bump {| f_groups := []; f_seen := []; f_cost := 0; f_unknown := false |}) sel with
   | ROk st =>
       if forallb (fun g => group_ok (snd g)) (f_groups st) then ROk st
-      else if fix25 v then RErr EFlattenMixed else RCrash CrNilSelectionSet
+      else if fix26 v then RErr EFlattenMixed else RCrash CrNilSelectionSet
   | RErr e => RErr e
   | RCrash c => RCrash c
   end.
